@@ -54,17 +54,21 @@ class State:
 
 
 class Paths:
-    def __init__(self, F, body, reader=None, local_prefix=None, max_paths=400, loop_iteration=False):
+    def __init__(self, F, body, reader=None, local_prefix=None, max_paths=400, loop_iteration=False, root=None, reader_ids=None, stream_calls=False):
         """loop_iteration=True: the (single) stream-reading loop of the function is analysed for one iteration — paths end with
-        ('continue',) at the end of its body, ('break',) at a break, or a return value"""
+        ('continue',) at the end of its body, ('break',) at a break, or a return value.
+        root / reader_ids: analyse a fragment of the body (a block built from some of its statements) with the given locals as the stream.
+        stream_calls=True: a call that is handed the stream is a token ('call', callee, constant byte arguments)."""
         self.F = F
         self.body = body
         self.loop_iteration = loop_iteration
+        self.stream_calls = stream_calls
         t = body["tir"]
-        self.reader_ids = set()
-        for p in t["params"]:
-            if p.get("k") == "Bind" and (reader is None and "&mut" in (p.get("ty") or "") or p.get("name") == reader):
-                self.reader_ids.add(p["id"])
+        self.reader_ids = set(reader_ids or ())
+        if reader_ids is None:
+            for p in t["params"]:
+                if p.get("k") == "Bind" and (reader is None and "&mut" in (p.get("ty") or "") or p.get("name") == reader):
+                    self.reader_ids.add(p["id"])
         self.prefix = local_prefix
         self.done = []        # (state, outcome value)
         self.nsym = 0
@@ -73,7 +77,7 @@ class Paths:
         for p in t["params"]:
             if p.get("k") == "Bind":
                 st = st.bind(p["id"], ("param", p.get("name")))
-        for st2, v in self.ev(t["value"], st):
+        for st2, v in self.ev(root if root is not None else t["value"], st):
             self.done.append((st2, v))
         if len(self.done) > max_paths:
             raise Unsupported(t["value"], "too many paths")
@@ -385,6 +389,10 @@ class Paths:
         if self.is_reader(n["recv"]) and m in ("by_ref",):
             yield st, st.env.get(strip(n["recv"]).get("id"), ("param", "r"))
             return
+        if self.is_reader(n["recv"]) and self.stream_calls:
+            for st2, vs in self.seq(list(n.get("args", [])), st):
+                yield st2.with_token(("call", d or m, ())), ("callres", d or m, len(st2.tokens))
+            return
         if self.is_reader(n["recv"]):
             raise Unsupported(n, "stream operation outside the reader-path fragment: " + m)
         for st2, vs in self.seq([n["recv"]] + list(n.get("args", [])), st):
@@ -438,6 +446,11 @@ class Paths:
         if self.prefix and d.startswith(self.prefix) and any(self.is_reader(a) for a in args):
             for st2, vs in self.seq([a for a in args if not self.is_reader(a)], st):
                 yield st2.with_token(("call", d[len(self.prefix):], vs)), ("callres", d[len(self.prefix):], len(st2.tokens))
+            return
+        if any(self.is_reader(a) for a in args) and self.stream_calls:
+            consts = tuple(tuple(b) for b in (self.F.bytes_of(a) for a in args if not self.is_reader(a)) if b is not None)
+            for st2, vs in self.seq([a for a in args if not self.is_reader(a)], st):
+                yield st2.with_token(("call", d, consts)), ("callres", d, len(st2.tokens))
             return
         if any(self.is_reader(a) for a in args):
             raise Unsupported(n, "the stream is handed to %s (outside the reader-path fragment)" % d)
